@@ -10,6 +10,7 @@ open Exc Py
   frame := <file> <line> <func> <source> <hidden> <nvals> val*
   val   := <repr tok | !> <typename tok>
   val <maxLen> <repr tok | !> <typename tok>
+  vlines <maxLen> <repr tok | !> <typename tok>      (number of display lines, characters on them)
   fmtall <limit|n> <maxLen> <fromDec> <budget> <root> <nexc> exn*      (all eight modes)
 -/
 
@@ -93,6 +94,17 @@ def pCase : P (Bool × Heap × Opts × Nat × Nat × Bool) := do
 
 def step (line : String) : String :=
   match line.splitOn " " with
+  | ["vlines", ml, r, ty] =>
+    match ml.toNat?, decTok ty with
+    | some ml, some ty =>
+      let v : Option Val := if r = "!" then some { repr := .error .other, typeName := ty }
+        else (decTok r).map fun s => { repr := .ok s, typeName := ty }
+      match v with
+      | some v =>
+        let ls := displayLines ml v
+        s!"ok {ls.length} {(ls.map List.length).sum}"
+      | none => "bad-op"
+    | _, _ => "bad-op"
   | ["val", ml, r, ty] =>
     match ml.toNat?, decTok ty with
     | some ml, some ty =>
